@@ -39,6 +39,30 @@ func RunHistory(seed uint64, r *rng.R, work string, opt apphist.Options, cfg Con
 		if !s.Begin() {
 			break
 		}
+		// scenario templates (shapes random generation reaches too rarely)
+		if r.Chance(18) {
+			if sc := s.Scenario(); sc != nil {
+				for _, bz := range sc.Deliver() {
+					o, _ := s.Deliver(bz)
+					s.After(bz, o)
+				}
+				for _, bz := range sc.Replays() {
+					o, _ := s.Deliver(bz)
+					s.After(bz, o)
+				}
+			}
+		}
+		if s.VoteAll {
+			for _, bz := range s.VoteRound() {
+				o, _ := s.Deliver(bz)
+				s.After(bz, o)
+			}
+		}
+		for len(s.PendingCheck) > 0 {
+			f := s.PendingCheck[0]
+			s.PendingCheck = s.PendingCheck[1:]
+			s.Check(f())
+		}
 		ntx := r.Intn(opt.TxPerBlock + 1)
 		for i := 0; i < ntx; i++ {
 			bz := s.GenTx()
